@@ -67,6 +67,10 @@ def strip(s):
     if isinstance(s, dict):
         if "__model__" in s:
             return strip(s["__model__"])
+        if "__set__" in s and isinstance(s["__set__"], list):
+            # elements are compared by their class-free representation: two partial objects of DIFFERENT (unrelated) classes with
+            # equal content are one element here (which class a parsed dict gets at a Union-typed position is outside the claim)
+            return {"__set__": sorted(set(s["__set__"]))}
         return {k: strip(v) for k, v in s.items() if k != "__cls__"}
     if isinstance(s, list):
         return [strip(x) for x in s]
